@@ -58,7 +58,7 @@ def config(
             break
     else:  # pragma: no cover - the lattice always contains supported cells
         kind, process, scheme, pto, heavyness, tmc = "F2", "NC", "ZM-VFNS", 1, "total", 0
-    nfff = draw(st.integers(3, 5))
+    nfff = draw(cards.ints(3, 5))
     if process == "EM":
         proj = draw(st.sampled_from(["electron", "positron"]))
     else:
@@ -94,7 +94,7 @@ def config(
         ob["NCPositivityCharge"] = draw(
             st.sampled_from([None, "all", "up", "down", "strange", "charm", "bottom", "top"])
         )
-    npts = draw(st.integers(*n_points))
+    npts = draw(cards.ints(*n_points))
     kins = []
     for _ in range(npts):
         x, xcls = draw(cards.x_in_grid(grid, classes=x_classes))
